@@ -112,7 +112,7 @@ def declared(nodes, pre=()):
     for nd in nodes:
         p = list(pre) + [nd['name']]
         for t, s, d in scope_trans(nd):
-            out.append([t, p + s, None if d is None else p + d])
+            out.append([t, p + s, None if d is None else p + d, list(p)])
         out += declared(children_of(nd), tuple(p))
     return out
 
@@ -129,7 +129,7 @@ def gen(rng, malformed):
         root_trans.append([r.choice(EVENTS), r.choice(paths), dst])
     ops = []
     mids = []
-    used_events = sorted(set(t for t, _, _ in root_trans + declared(forest))) or ['go']
+    used_events = sorted(set(t[0] for t in root_trans + declared(forest))) or ['go']
     own_pool = ['foo', 'is_' + forest[0]['name'] + 'x', 'bar']
     for _ in range(r.randint(3, 9)):
         x = r.random()
@@ -180,7 +180,7 @@ def gen(rng, malformed):
                     forest_now = forest_after(forest, ops)
                     ops.append(['states', 'top', nd])
                     paths = local_paths(forest_after(forest, ops))
-                    used_events = sorted(set(used_events) | set(t for t, _, _ in declared([nd])))
+                    used_events = sorted(set(used_events) | set(t[0] for t in declared([nd])))
             else:
                 n = g.name(False)
                 if n:
@@ -223,7 +223,7 @@ def apply_states(forest, op):
 def current_relation(forest, root_trans, ops):
     """the reference relation after the given operations: list of [event, source path, dest path | None]"""
     f = copy.deepcopy(forest)
-    rel = [[t, list(s), None if d is None else list(d)] for t, s, d in root_trans] + declared(f)
+    rel = [[t, list(s), None if d is None else list(d), []] for t, s, d in root_trans] + declared(f)
     for op in ops:
         rel = ref_step(f, rel, op)
     return rel
@@ -234,7 +234,7 @@ def ref_step(forest, rel, op):
     if k == 'addt':
         _, trig, src, dst = op
         sources = [[nd['name']] for nd in forest] if src is None else src
-        return rel + [[trig, list(s), None if dst is None else list(dst)] for s in sources]
+        return rel + [[trig, list(s), None if dst is None else list(dst), []] for s in sources]
     if k == 'rmt':
         _, trig, src, dst = op
         return [t for t in rel if not (t[0] == trig and (src is None or t[1] == src) and (dst is None or t[2] == dst))]
@@ -245,8 +245,36 @@ def ref_step(forest, rel, op):
     return rel
 
 
+SEG_IDS = {n: i for i, n in enumerate(SEGS)}
+EVENT_IDS = {n: i for i, n in enumerate(EVENTS)}
+
+
+def h_case(forest, rel):
+    """the machine (state definitions with the events declared inside them, the machine's own events) of the
+    reference relation, and all state paths, in the format of NamingHIO.v"""
+    import c11_hsm
+
+    def pid(p):
+        return [SEG_IDS[x] for x in p]
+
+    def events_at(scope):
+        k = len(scope)
+        return c11_hsm.group_events([(EVENT_IDS[t], pid(s[k:]), None if d is None else pid(d[k:]))
+                                     for t, s, d, sc in rel if sc == list(scope)])
+
+    def defs(nodes, pre):
+        return [(SEG_IDS[nd['name']], events_at(pre + [nd['name']]), defs(children_of(nd), pre + [nd['name']])) for nd in nodes]
+    return [c11_hsm.h_machine_sx(defs(forest, []), events_at([])), [pid(p) for p in local_paths(forest)], []]
+
+
 def enc(case):
-    return [2]
+    f = copy.deepcopy(case['forest'])
+    rel = current_relation(f, case['root_trans'], [])
+    steps = [h_case(f, rel)]
+    for op in case['ops']:
+        rel = ref_step(f, rel, op)
+        steps.append(h_case(f, rel))
+    return [2, steps]
 
 
 # ------------------------------------------------------------------ implementation + oracle
@@ -299,7 +327,7 @@ def impl(case):
         state_cls = NS
 
     forest = copy.deepcopy(case['forest'])
-    rel = [[t, list(s), None if d is None else list(d)] for t, s, d in case['root_trans']] + declared(forest)
+    rel = [[t, list(s), None if d is None else list(d), []] for t, s, d in case['root_trans']] + declared(forest)
     first_leaf = leaves(forest)[0]
     machine = HM(model=None, states=build_states(forest, HM, sep, cfg['auto']), initial=sep.join(first_leaf),
                  transitions=[[t, sep.join(s), None if d is None else sep.join(d)] for t, s, d in case['root_trans']],
@@ -309,6 +337,7 @@ def impl(case):
     descs = {}
     universe = set(EVENTS)
     failures = []
+    trig_obs = []
 
     def fail(step, msg):
         if len(failures) < 3:
@@ -325,7 +354,7 @@ def impl(case):
     def check(step):
         got = walk(machine, sep)
         user = sorted((t[:3] for t in got if not t[0].startswith('to_')), key=repr)
-        want = sorted(((t, tuple(s), None if d is None else tuple(d)) for t, s, d in rel), key=repr)
+        want = sorted(((t, tuple(s), None if d is None else tuple(d)) for t, s, d, _sc in rel), key=repr)
         if user != want:
             extra = [t for t in user if t not in want]
             missing = [t for t in want if t not in user]
@@ -334,6 +363,8 @@ def impl(case):
         names = sorted(universe | alive)
         hnames = [e for e in names if not e.startswith('to_')]   # to_ helpers: see the static nested stream
         all_paths = local_paths(forest)
+        trig_obs.append([1, [], [sorted(set(EVENT_IDS[e] for e in machine.get_triggers(sep.join(p)) if e in EVENT_IDS))
+                                 for p in all_paths]])
         # T, G
         for p in all_paths:
             s = sep.join(p)
@@ -430,10 +461,13 @@ def impl(case):
         if raised is not None:
             fail(idx + 1, 'operation %s raised %s' % (k, type(raised).__name__))
         check(idx + 1)
-    return [1, [sx_str(f) for f in failures]]
+    return [1, [sx_str(f) for f in failures], trig_obs]
 
 
 def canon(case, obs):
+    if isinstance(obs, list) and len(obs) == 3 and obs[0] == 1:
+        return [1, obs[1], [[h[0], h[1], [sorted(set(l)) for l in h[2]]] if isinstance(h, list) and h[0] == 1 else h
+                            for h in obs[2]]]
     return obs
 
 
